@@ -320,6 +320,14 @@ pub fn real_clique_x(bindir: &str, names: &[String], edges: &[(usize, usize)], u
             order = ord;
         }
     }
+    // the quantified copies must be one per vertex: the theorem counts over a duplicate-free vertex list
+    {
+        let mut o2 = order.clone();
+        o2.sort();
+        if o2 != used {
+            return ("(vertex-list-not-a-permutation-of-the-vertices)".into(), order);
+        }
+    }
     let pfx = prefix.clone().unwrap_or_else(|| "v_".to_string());
     if !all && used.iter().any(|i| names[*i].starts_with(&pfx)) {
         return ("(copy-prefix-not-fresh)".into(), order);
@@ -486,6 +494,8 @@ pub fn main(out: &mut Out, o: &Opts) {
             "clique" => {
                 let plain: Vec<String> = ["a", "b", "c", "d", "e", "f", "g"].iter().map(|s| s.to_string()).collect();
                 let tricky: Vec<String> = ["a", "v_a", "v_", "v__a", "b", "v_b", "x1"].iter().map(|s| s.to_string()).collect();
+                // names that differ only in case, a doubly prefixed name, names that are prefixes of one another
+                let cased: Vec<String> = ["a", "A", "b", "B", "x", "v__x", "ab"].iter().map(|s| s.to_string()).collect();
                 let mut cases: Vec<(Vec<String>, Vec<(usize, usize)>, bool, bool)> = vec![];
                 // all directed graphs on <= 3 vertices (loops excluded), all undirected on <= 4
                 for mask in 0u32..64 {
@@ -498,6 +508,15 @@ pub fn main(out: &mut Out, o: &Opts) {
                         cases.push((plain.clone(), e.clone(), u, all));
                     }
                     cases.push((tricky.clone(), e.clone(), true, false));
+                    cases.push((cased.clone(), e.clone(), true, false));
+                    cases.push((cased.clone(), e.clone(), false, false));
+                }
+                // interleaved mentions of names equal up to case, and the doubly prefixed name next to its base name
+                for e in [vec![(0usize, 1usize), (1, 2), (0, 3)], vec![(0, 1), (1, 2), (2, 3), (3, 1), (0, 4)], vec![(4, 5)], vec![(4, 5), (5, 0), (0, 4)], vec![(1, 0), (0, 2), (1, 3), (0, 1)]] {
+                    for u in [true, false] {
+                        cases.push((cased.clone(), e.clone(), u, false));
+                        cases.push((cased.clone(), e.clone(), u, true));
+                    }
                 }
                 for mask in 1u32..64 {
                     let pairs = [(0, 1), (0, 2), (0, 3), (1, 2), (1, 3), (2, 3)];
@@ -517,7 +536,7 @@ pub fn main(out: &mut Out, o: &Opts) {
                     if e.is_empty() {
                         continue;
                     }
-                    let names = if k % 3 == 0 { tricky.clone() } else { plain.clone() };
+                    let names = if k % 3 == 0 { tricky.clone() } else if k % 3 == 1 { cased.clone() } else { plain.clone() };
                     cases.push((names, e, rng.chance(1, 2), rng.chance(1, 3)));
                 }
                 {
@@ -567,6 +586,10 @@ pub fn main(out: &mut Out, o: &Opts) {
                         }
                         reqs.push((v, 0, u, false, true));
                         reqs.push((v, 0, u, true, true));
+                        // --complete with an explicit (ignored) EDGES positional, below and above the maximum
+                        for e in [1usize, maxe, maxe + 1, 100] {
+                            reqs.push((v, e + 1_000_000, u, false, true));
+                        }
                     }
                 }
                 let res = par_map(&reqs, |(v, e, u, dot, complete)| {
@@ -574,6 +597,9 @@ pub fn main(out: &mut Out, o: &Opts) {
                     if *complete {
                         args.push("--complete".into());
                         args.push(v.to_string());
+                        if *e >= 1_000_000 {
+                            args.push((e - 1_000_000).to_string());
+                        }
                     } else {
                         args.push(v.to_string());
                         args.push(e.to_string());
@@ -625,7 +651,7 @@ pub fn main(out: &mut Out, o: &Opts) {
                     for pool in 0..pools.len() {
                         inputs.push((e.clone(), false, None, pool));
                         inputs.push((e.clone(), true, None, pool));
-                        for k in 1..=3 {
+                        for k in 0..=3 {
                             inputs.push((e.clone(), true, Some(k), pool));
                         }
                     }
@@ -637,7 +663,7 @@ pub fn main(out: &mut Out, o: &Opts) {
                     if e.is_empty() {
                         continue;
                     }
-                    let k = if rng.chance(1, 2) { Some(1 + rng.below(3) as usize) } else { None };
+                    let k = if rng.chance(1, 2) { Some(rng.below(4) as usize) } else { None };
                     inputs.push((e, rng.chance(1, 2), k, rng.below(pools.len() as u64) as usize));
                 }
                 let dir = std::path::PathBuf::from(format!("/verif/_build/tmp/{}", std::process::id()));
